@@ -12,6 +12,7 @@ import sys
 from fractions import Fraction
 from concurrent.futures import ThreadPoolExecutor
 from common import *  # noqa
+sys.path.insert(0, os.path.join(VERIF, 'translate')); import cores  # noqa: E402
 
 PID = 'C19'
 NEAR = 1e-6
@@ -738,7 +739,12 @@ def main():
     ck.assumptions += ['data are integer valued so that exact and float statistics differ by far less than the 1e-6 threshold margin',
                        'group sizes >= 3 (property quantifier); the t statistic of an edge that is constant over all subjects (0/0) is treated as not exceeding any threshold >= 0',
                        'every recorded permutation / sign flip is replayed by the oracle and by the Lean model (common.Recorder passed as seed=)']
+    # T-gen: nbs_bct source-pinned, its callee get_components interpreted (translate/cores.py)
+    ck.cov['cores'] = cores.generate(families=['nbs', 'comp'])
+    for p_ in ck.cov['cores']['problems']:
+        ck.corr_break('core extractor (translate/cores.py)', p_)
     ok = ck.lean_gate(['BctVerif.Props.C19'], extra_modules=['BctVerif.Model.Nbs'])
+    ck.lean_gate([], gen_modules=['BctVerif.Gen.CoresNbs', 'BctVerif.Gen.CoresComp'])
     if ck.tier == 'thorough' and ok:
         ck.leanchecker(['BctVerif.Props.C19', 'BctVerif.Model.Nbs'])
     if ck.replay:
